@@ -645,6 +645,25 @@ func ruleS4(r *Run) {
 				if be, ok := ifs.Cond.(*ast.BinaryExpr); ok && mentionsCRC && be.Op == token.NEQ && endsInReturn(ifs.Body.List) {
 					failOK = true
 				}
+				// the inverted spelling: `if crc == expected { ...; return }` and the failure tuple (a negative index) is what the
+				// rest of the function returns
+				if be, ok := ifs.Cond.(*ast.BinaryExpr); ok && mentionsCRC && be.Op == token.EQL && endsInReturn(ifs.Body.List) {
+					after := false
+					for _, st := range ps.Body.List {
+						if st == ast.Stmt(ifs) {
+							after = true
+							continue
+						}
+						if !after {
+							continue
+						}
+						if as, ok := st.(*ast.AssignStmt); ok && len(as.Rhs) == 1 {
+							if v, ok := intConst(info, as.Rhs[0]); ok && v < 0 {
+								failOK = true
+							}
+						}
+					}
+				}
 				return true
 			})
 			r.Check(failOK, "checksum mismatch rejects "+tr, ps.Pos(), "crc != expected returns the failure tuple", "a checksum mismatch no longer makes parseHeader return its failure result")
